@@ -50,9 +50,9 @@ def run(chk):
                 'every experiment is replayed on the real parser under a watchdog; corpus, random long strings, mutated '
                 'documents and deep nestings are recorded from the real parser and validated by TLC (StringsTrace). '
                 'A case is the source string; distinct = distinct sources.')
-    scopes = [(S.SC + S.SC_EXTRA, 3 if quick else 4), (S.SUB['ign'], 3 if quick else 4), (S.ST, 2 if quick else 3)]
+    scopes = [(S.SC + S.SC_EXTRA, 3), (S.SUB['ign'], S.words_bound(S.SUB['ign'], quick)), (S.ST, 2)]
     for k in ('env', 'args', 'math', 'verb', 'item', 'esc', 'sig', 'names'):
-        scopes.append((S.SUB[k], 3 if quick else 4))
+        scopes.append((S.SUB[k], S.words_bound(S.SUB[k], quick)))
     res = S.explore(chk, 'strings', scopes, invariants=INV, timeout=3000, runs='B', sources=deep([6, 14] if quick else [6, 14, 40]))
     S.model_must_hold(chk, res)
     sim = S.explore(chk, 'simulate', [(S.ST + S.SC + S.SC_EXTRA, 22, 6)], invariants=INV, timeout=3000, runs='B', simulate=60 if quick else 4000, depth=6000)
